@@ -116,6 +116,12 @@ func (r *Reader) IndexAtChunk() uint32 {
 
 // Int reads a int value of any size.
 func (r *Reader) Int() int {
+	switch r.i1 - r.i0 {
+	case 2:
+		return int(r.Int16()) // sign-extend
+	case 4:
+		return int(r.Int32()) // sign-extend
+	}
 	return int(r.Uint())
 }
 
